@@ -74,7 +74,7 @@ theorem C18_nonneg_jonswap (w wp al be gm g : ℝ) (hw : 0 < w) (hal : 0 ≤ al)
 theorem C18_nonneg_ochiHubble (w wp1 wp2 Hs1 Hs2 l1 l2 : ℝ) (hw : 0 < w) (h1 : 0 < wp1) (h2 : 0 < wp2)
     (hl1 : 0 < l1) (hl2 : 0 < l2) : 0 ≤ ochiHubbleSpectrum w wp1 wp2 Hs1 Hs2 l1 l2 := by
   unfold ochiHubbleSpectrum
-  simp only [lit_real, npow_real, exp_real, rpow_real, gamma_real]
+  simp only [lit_real, npow_real, exp_real, rpow_real, gamma_real, eqb_exp_zero', cond_false]
   have g1 := Real.Gamma_pos_of_pos hl1
   have g2 := Real.Gamma_pos_of_pos hl2
   refine div_nonneg (add_nonneg ?_ ?_) (by positivity)
